@@ -1,121 +1,219 @@
 ------------------------------- MODULE Session -------------------------------
-(* bus/session/session.go: the connection pool of a Session shared by several
-   goroutines (C19).
+(* bus/session/session.go + bus/client.go SelectEndPoint: the connection pool
+   of a Session shared by several goroutines (C19).
 
-   Session.client(info) (l.56-93), one action per step a concurrent goroutine
-   can observe; `poll` (address -> client) is protected by the RWMutex
-   `pollMutex`, modelled by the number of readers holding it, the goroutines
-   queued in RLock behind a writer (Go counts them in readerCount as soon as
-   they arrive), and the writer:
+   Services advertise a LIST of addresses (Adv).  An address is live (one of
+   Eps: somebody listens there), in the test range ("T": 198.18.0.x, never
+   dialed) or dead (anything else: the dial fails).  Session.client(info), one
+   action per step a concurrent goroutine can observe; `poll` (address ->
+   client) is protected by the RWMutex `pollMutex`, modelled by the readers
+   holding it, the goroutines queued in RLock behind a writer (Go counts them
+   in readerCount as soon as they arrive), and the writer:
 
-     Start(g, a)      Proxy(name) -> findServiceName (under serviceListMutex) -> client(info)
-     RLockEnter(g)    l.60   RLock: taken at once, or queued behind a writer that holds / waits
-     RLockGranted(g)         a queued reader gets the lock once no writer holds it.  (Who goes first
-                             when readers are queued AND writers wait is left open: a superset of
-                             what sync.RWMutex does, so the invariants cover the real mutex.)
-     LookupHit(g)     l.61-66  entry found: RUnlock, return the shared client
-     LookupMiss(g)    l.61-68  nothing found: RUnlock
-     Dial(g)          l.69   SelectEndPoint: a NEW connection to the endpoint + authenticate
-     Lock(g)          l.81   blocks while readers or another writer hold the lock
-     Insert(g)        l.82,88-90  re-check found nothing: poll[a] := own client; Unlock
-     Dup(g)           l.82-86  re-check found an entry: release, close the OWN connection,
-                               return the shared client
-     Closer(a)        l.75-79  the connection of poll[a] is lost: Lock; delete; Unlock (one step;
-                               only in configurations with ConnLoss = TRUE)
+     Start(g, s)      Proxy(name) -> findServiceName (under serviceListMutex) -> client(info)
+     RLockEnter(g)    RLock: taken at once, or queued behind a writer that holds / waits
+     RLockGranted(g)  a queued reader gets the lock once no writer holds it.  (Who goes first
+                      when readers are queued AND writers wait is left open: a superset of
+                      what sync.RWMutex does, so the invariants cover the real mutex.)
+     LookupHit(g)     `for _, addr := range info.Endpoints`: the first advertised address with
+                      an entry: RUnlock, return the shared client
+     LookupMiss(g)    no advertised address has an entry: RUnlock
+     SelectDial(g)    bus.SelectEndPoint: the first advertised address that is not skipped and
+                      can be dialed: a NEW connection to it
+     SelectFail(g)    no such address: an error is returned (Dev_NilChannelWhenAllSkipped: with
+                      every address in the test range no dial was tried, the error is nil, the
+                      channel is nil: channel.EndPoint() panics, the process dies)
+     AuthOK(g)        channel.Authenticate() accepted: SelectEndPoint returns the address
+                      actually connected (cad)
+     AuthRefused(g)   refused: error; the connection is closed
+                      (Dev_AuthFailureLeaksConnection: it is left open)
+     AuthLost(g)      the connection was lost before the answer: error
+     LockWait(g)/Lock(g)   pollMutex.Lock(): announce, then acquire when free
+     Insert(g)        re-check misses: poll[cad] := own client; Unlock
+     AddHandler(g)    endpoint.AddHandler(.., closer): its own step AFTER the insert; a connection
+                      lost in between is reported to the closer at once
+                      (Dev_DeadClientStaysInPool: a handler added to a closed end point is never
+                      told; the dead client stays in the pool for ever)
+     Dup(g)           re-check hits: Unlock, close the OWN connection, return the shared client
+     Lose(c)          the network / the peer drops connection c (at any point: before the insert,
+                      between insert and AddHandler, after); a registered closer is scheduled
+     Closer(c)        closer of c (own goroutine): Lock; delete(poll, key); Unlock (one step)
 
-   Deviation (code as found): Dev_RUnlockUnderWriteLock - the Dup branch calls
-   RUnlock while holding the WRITE lock.  The Go runtime aborts the process
-   (`fatal error: sync: RUnlock of unlocked RWMutex`) when no reader is
-   queued; with queued readers the reader count is corrupted and the write
-   lock is never released: every later request blocks for ever.
+   The pool is keyed by the connected address (Dev_PoolKeyedByAdvertised: by the
+   first advertised one); the closer is registered after the insert
+   (Dev_CloserBeforeInsert: before Lock(), so that also the loser of a dial
+   race carries one).
 
-   Second process (l.201-247): the update loop refreshes serviceList under
+   Deviation Dev_RUnlockUnderWriteLock: the Dup branch calls RUnlock while
+   holding the WRITE lock.  The Go runtime aborts the process when no reader
+   is queued; with queued readers the reader count is corrupted and the write
+   lock is never released.
+
+   Second process: the update loop refreshes serviceList under
    serviceListMutex whenever the directory signals a change; Start reads the
    list under the same mutex.  The two mutexes are never held together.      *)
 EXTENDS Naturals, FiniteSets, Sequences, TLC
 
 CONSTANTS Gor,        \* goroutines sharing the session
-          Addrs,      \* endpoints (one service behind each)
+          Eps,        \* live addresses (= remote endpoints)
+          Svcs,       \* registered services
+          Adv,        \* service -> sequence of advertised addresses
           MaxReq,     \* requests per goroutine
-          ConnLoss,   \* BOOLEAN: connections may be lost (closer runs)
-          Dev_RUnlockUnderWriteLock
+          MaxLoss,    \* connections that may be lost (0: none)
+          AuthMayRefuse,   \* BOOLEAN: an authentication may be refused
+          Dev_RUnlockUnderWriteLock,
+          Dev_NilChannelWhenAllSkipped,
+          Dev_AuthFailureLeaksConnection,
+          Dev_DeadClientStaysInPool,
+          Dev_PoolKeyedByAdvertised,
+          Dev_CloserBeforeInsert
+
+\* address lists used by the configurations (Adv <- AdvAll)
+AdvAll == [s \in {"e", "f", "xe", "te", "ef", "t", "x", "tx"} |->
+             CASE s = "e"  -> <<"E">>            \* one live address
+               [] s = "f"  -> <<"F">>
+               [] s = "xe" -> <<"X", "E">>       \* a dead address first
+               [] s = "te" -> <<"T", "E">>       \* a test-range address first
+               [] s = "ef" -> <<"E", "F">>       \* reachable at both endpoints
+               [] s = "t"  -> <<"T">>            \* test range only
+               [] s = "x"  -> <<"X">>            \* dead only
+               [] s = "tx" -> <<"T", "X">>]
 
 NULL == 0          \* no connection
 NoG == "none"      \* no goroutine
+TestRange == {"T"}
 
-VARIABLES pc,        \* g -> "idle" | "rlock" | "rlock_q" | "locked_r" | "dial" | "lock" | "locked_w" | "stuck"
-          tgt,       \* g -> address requested
+Range(f) == {f[i] : i \in DOMAIN f}
+AllAddrs == Eps \cup UNION {Range(Adv[s]) : s \in Svcs}
+Usable(a) == a \notin TestRange /\ a \in Eps
+\* index of the address SelectEndPoint connects to (0: none)
+FirstUsable(s) == IF \E i \in DOMAIN Adv[s] : Usable(Adv[s][i])
+                    THEN CHOOSE i \in DOMAIN Adv[s] : Usable(Adv[s][i]) /\ \A j \in 1..(i-1) : ~Usable(Adv[s][j])
+                    ELSE 0
+Reachable(s) == FirstUsable(s) # 0
+\* some dial was attempted (and failed): SelectEndPoint has an error to return
+DialTried(s) == \E i \in DOMAIN Adv[s] : Adv[s][i] \notin TestRange
+
+VARIABLES pc,        \* g -> "idle" | "rlock" | "rlock_q" | "locked_r" | "select" | "auth" | "lock" | "locked_w" | "addh" | "stuck"
+          svc,       \* g -> service requested
           mine,      \* g -> connection dialed by g in this request (or NULL)
+          cad,       \* g -> address actually connected ("" before)
           ret,       \* g -> connection of the client returned by the last request (or NULL)
+          res,       \* g -> outcome of the last request: "none" | "ok" | "unreachable" | "refused" | "lost"
           reqs,      \* g -> requests started
           poll,      \* address -> connection id of the pooled client (or NULL)
           readers,   \* goroutines holding the read lock
-          writer,    \* goroutine holding the write lock (or NULL)
+          writer,    \* goroutine holding the write lock (or NoG)
           wwait,     \* goroutines waiting in Lock (Go: a waiting writer blocks new readers)
-          conns,     \* connection id -> [addr, open]
+          conns,     \* connection id -> [ep, st: "open" | "closed" (by the session) | "lost", h: closer registered, key: what the closer deletes]
+          cpend,     \* connections whose closer has been started and has not run yet
+          losses,    \* connections lost so far
           crashed,   \* the runtime aborted the process
           leaked,    \* the write lock was given up with RUnlock: it stays locked for ever
           svcList, svcMu, dirty   \* serviceList, who holds serviceListMutex, pending directory signal
-vars == <<pc, tgt, mine, ret, reqs, poll, readers, writer, wwait, conns, crashed, leaked, svcList, svcMu, dirty>>
+vars == <<pc, svc, mine, cad, ret, res, reqs, poll, readers, writer, wwait, conns, cpend, losses, crashed, leaked, svcList, svcMu, dirty>>
 
 ConnIds == DOMAIN conns
 NewConn == Cardinality(DOMAIN conns) + 1
-OpenTo(a) == {c \in DOMAIN conns : conns[c].addr = a /\ conns[c].open}
+OpenTo(a) == {c \in DOMAIN conns : conns[c].ep = a /\ conns[c].st = "open"}
+AnySvc == CHOOSE s \in Svcs : TRUE
+NoConns == [c \in {} |-> [ep |-> "", st |-> "open", h |-> FALSE, key |-> ""]]
 
-Init == /\ pc = [g \in Gor |-> "idle"] /\ tgt = [g \in Gor |-> CHOOSE a \in Addrs : TRUE]
-        /\ mine = [g \in Gor |-> NULL] /\ ret = [g \in Gor |-> NULL] /\ reqs = [g \in Gor |-> 0]
-        /\ poll = [a \in Addrs |-> NULL]
+Init == /\ pc = [g \in Gor |-> "idle"] /\ svc = [g \in Gor |-> AnySvc]
+        /\ mine = [g \in Gor |-> NULL] /\ cad = [g \in Gor |-> ""] /\ ret = [g \in Gor |-> NULL]
+        /\ res = [g \in Gor |-> "none"] /\ reqs = [g \in Gor |-> 0]
+        /\ poll = [a \in AllAddrs |-> NULL]
         /\ readers = {} /\ writer = NoG /\ wwait = {}
-        /\ conns = [c \in {} |-> [addr |-> CHOOSE a \in Addrs : TRUE, open |-> TRUE]]
+        /\ conns = NoConns /\ cpend = {} /\ losses = 0
         /\ crashed = FALSE /\ leaked = FALSE
-        /\ svcList = Addrs /\ svcMu = NoG /\ dirty = FALSE
+        /\ svcList = Svcs /\ svcMu = NoG /\ dirty = FALSE
 
 Goto(g, l) == pc' = [pc EXCEPT ![g] = l]
 Alive == ~crashed
 UnchangedList == UNCHANGED <<svcList, svcMu, dirty>>
+UnchangedMutex == UNCHANGED <<readers, writer, wwait>>
+UnchangedFate == UNCHANGED <<crashed, leaked, losses>>
+Done(g, r, c) == /\ res' = [res EXCEPT ![g] = r] /\ ret' = [ret EXCEPT ![g] = c] /\ Goto(g, "idle")
 
 (* Proxy(name): findServiceName under serviceListMutex (one step), then client(info) *)
-Start(g, a) ==
+Start(g, s) ==
   /\ Alive /\ pc[g] = "idle" /\ reqs[g] < MaxReq
-  /\ svcMu = NoG /\ a \in svcList
+  /\ svcMu = NoG /\ s \in svcList
   /\ reqs' = [reqs EXCEPT ![g] = @ + 1]
-  /\ tgt' = [tgt EXCEPT ![g] = a] /\ mine' = [mine EXCEPT ![g] = NULL] /\ ret' = [ret EXCEPT ![g] = NULL]
+  /\ svc' = [svc EXCEPT ![g] = s] /\ mine' = [mine EXCEPT ![g] = NULL] /\ cad' = [cad EXCEPT ![g] = ""]
+  /\ ret' = [ret EXCEPT ![g] = NULL] /\ res' = [res EXCEPT ![g] = "none"]
   /\ Goto(g, "rlock")
-  /\ UNCHANGED <<poll, readers, writer, wwait, conns, crashed, leaked>> /\ UnchangedList
+  /\ UNCHANGED <<poll, conns, cpend>> /\ UnchangedMutex /\ UnchangedFate /\ UnchangedList
 
 RLockEnter(g) ==
   /\ Alive /\ pc[g] = "rlock"
   /\ IF writer = NoG /\ wwait = {} /\ ~leaked
        THEN readers' = readers \cup {g} /\ Goto(g, "locked_r")
        ELSE Goto(g, "rlock_q") /\ UNCHANGED readers          \* counted by the mutex, blocked
-  /\ UNCHANGED <<tgt, mine, ret, reqs, poll, writer, wwait, conns, crashed, leaked>> /\ UnchangedList
+  /\ UNCHANGED <<svc, mine, cad, ret, res, reqs, poll, writer, wwait, conns, cpend>> /\ UnchangedFate /\ UnchangedList
 RLockGranted(g) ==
   /\ Alive /\ pc[g] = "rlock_q"
   /\ writer = NoG /\ ~leaked
   /\ readers' = readers \cup {g}
   /\ Goto(g, "locked_r")
-  /\ UNCHANGED <<tgt, mine, ret, reqs, poll, writer, wwait, conns, crashed, leaked>> /\ UnchangedList
+  /\ UNCHANGED <<svc, mine, cad, ret, res, reqs, poll, writer, wwait, conns, cpend>> /\ UnchangedFate /\ UnchangedList
+
+\* the advertised addresses that have an entry, in list order
+HitIdx(s) == {i \in DOMAIN Adv[s] : poll[Adv[s][i]] # NULL}
+FirstHit(s) == Adv[s][CHOOSE i \in HitIdx(s) : \A j \in HitIdx(s) : i <= j]
 
 LookupHit(g) ==
-  /\ Alive /\ pc[g] = "locked_r" /\ poll[tgt[g]] # NULL
+  /\ Alive /\ pc[g] = "locked_r" /\ HitIdx(svc[g]) # {}
   /\ readers' = readers \ {g}
-  /\ ret' = [ret EXCEPT ![g] = poll[tgt[g]]]
-  /\ Goto(g, "idle")
-  /\ UNCHANGED <<tgt, mine, reqs, poll, writer, wwait, conns, crashed, leaked>> /\ UnchangedList
+  /\ Done(g, "ok", poll[FirstHit(svc[g])])
+  /\ UNCHANGED <<svc, mine, cad, reqs, poll, writer, wwait, conns, cpend>> /\ UnchangedFate /\ UnchangedList
 
 LookupMiss(g) ==
-  /\ Alive /\ pc[g] = "locked_r" /\ poll[tgt[g]] = NULL
+  /\ Alive /\ pc[g] = "locked_r" /\ HitIdx(svc[g]) = {}
   /\ readers' = readers \ {g}
-  /\ Goto(g, "dial")
-  /\ UNCHANGED <<tgt, mine, ret, reqs, poll, writer, wwait, conns, crashed, leaked>> /\ UnchangedList
+  /\ Goto(g, "select")
+  /\ UNCHANGED <<svc, mine, cad, ret, res, reqs, poll, writer, wwait, conns, cpend>> /\ UnchangedFate /\ UnchangedList
 
-Dial(g) ==
-  /\ Alive /\ pc[g] = "dial"
-  /\ conns' = [c \in DOMAIN conns \cup {NewConn} |->
-                 IF c = NewConn THEN [addr |-> tgt[g], open |-> TRUE] ELSE conns[c]]
+(* bus.SelectEndPoint: skip the test range, try to dial in list order *)
+SelectDial(g) ==
+  /\ Alive /\ pc[g] = "select" /\ Reachable(svc[g])
+  /\ LET a == Adv[svc[g]][FirstUsable(svc[g])]
+     IN conns' = [c \in DOMAIN conns \cup {NewConn} |->
+                    IF c = NewConn THEN [ep |-> a, st |-> "open", h |-> FALSE, key |-> ""] ELSE conns[c]]
   /\ mine' = [mine EXCEPT ![g] = NewConn]
+  /\ Goto(g, "auth")
+  /\ UNCHANGED <<svc, cad, ret, res, reqs, poll, cpend>> /\ UnchangedMutex /\ UnchangedFate /\ UnchangedList
+
+SelectFail(g) ==
+  /\ Alive /\ pc[g] = "select" /\ ~Reachable(svc[g])
+  /\ IF Dev_NilChannelWhenAllSkipped /\ ~DialTried(svc[g])
+       THEN \* ("", nil, nil): channel.EndPoint() on a nil interface
+            /\ crashed' = TRUE /\ Goto(g, "stuck") /\ UNCHANGED <<ret, res, leaked, losses>>
+       ELSE /\ Done(g, "unreachable", NULL) /\ UnchangedFate
+  /\ UNCHANGED <<svc, mine, cad, reqs, poll, conns, cpend>> /\ UnchangedMutex /\ UnchangedList
+
+\* what Session.client uses as key for re-check, insert and closer
+KeyOf(g, a) == IF Dev_PoolKeyedByAdvertised THEN Adv[svc[g]][1] ELSE a
+
+AuthOK(g) ==
+  /\ Alive /\ pc[g] = "auth" /\ conns[mine[g]].st = "open"
+  /\ cad' = [cad EXCEPT ![g] = conns[mine[g]].ep]
+  /\ conns' = [conns EXCEPT ![mine[g]].key = KeyOf(g, conns[mine[g]].ep),
+                            ![mine[g]].h = Dev_CloserBeforeInsert]
   /\ Goto(g, "lock")
-  /\ UNCHANGED <<tgt, ret, reqs, poll, readers, writer, wwait, crashed, leaked>> /\ UnchangedList
+  /\ UNCHANGED <<svc, mine, ret, res, reqs, poll, cpend>> /\ UnchangedMutex /\ UnchangedFate /\ UnchangedList
+
+AuthRefused(g) ==
+  /\ Alive /\ AuthMayRefuse /\ pc[g] = "auth" /\ conns[mine[g]].st = "open"
+  /\ IF Dev_AuthFailureLeaksConnection THEN UNCHANGED conns
+                                       ELSE conns' = [conns EXCEPT ![mine[g]].st = "closed"]
+  /\ Done(g, "refused", NULL)
+  /\ UNCHANGED <<svc, mine, cad, reqs, poll, cpend>> /\ UnchangedMutex /\ UnchangedFate /\ UnchangedList
+
+AuthLost(g) ==
+  /\ Alive /\ pc[g] = "auth" /\ conns[mine[g]].st = "lost"
+  /\ Done(g, "lost", NULL)
+  /\ UNCHANGED <<svc, mine, cad, reqs, poll, conns, cpend>> /\ UnchangedMutex /\ UnchangedFate /\ UnchangedList
 
 \* goroutines that called RLock while the writer holds the lock: Go has already counted them
 QueuedReaders == {h \in Gor : pc[h] = "rlock_q"}
@@ -124,72 +222,103 @@ QueuedReaders == {h \in Gor : pc[h] = "rlock_q"}
 LockWait(g) ==
   /\ Alive /\ pc[g] = "lock" /\ g \notin wwait
   /\ wwait' = wwait \cup {g}
-  /\ UNCHANGED <<pc, tgt, mine, ret, reqs, poll, readers, writer, conns, crashed, leaked>> /\ UnchangedList
+  /\ UNCHANGED <<pc, svc, mine, cad, ret, res, reqs, poll, readers, writer, conns, cpend>> /\ UnchangedFate /\ UnchangedList
 Lock(g) ==
   /\ Alive /\ pc[g] = "lock" /\ g \in wwait
   /\ writer = NoG /\ readers = {} /\ ~leaked
   /\ writer' = g /\ wwait' = wwait \ {g}
   /\ Goto(g, "locked_w")
-  /\ UNCHANGED <<tgt, mine, ret, reqs, poll, readers, conns, crashed, leaked>> /\ UnchangedList
+  /\ UNCHANGED <<svc, mine, cad, ret, res, reqs, poll, readers, conns, cpend>> /\ UnchangedFate /\ UnchangedList
+
+MyKey(g) == conns[mine[g]].key
 
 Insert(g) ==
-  /\ Alive /\ pc[g] = "locked_w" /\ writer = g /\ poll[tgt[g]] = NULL
-  /\ poll' = [poll EXCEPT ![tgt[g]] = mine[g]]
-  /\ ret' = [ret EXCEPT ![g] = mine[g]]
+  /\ Alive /\ pc[g] = "locked_w" /\ writer = g /\ poll[MyKey(g)] = NULL
+  /\ poll' = [poll EXCEPT ![MyKey(g)] = mine[g]]
   /\ writer' = NoG
-  /\ Goto(g, "idle")
-  /\ UNCHANGED <<tgt, mine, reqs, readers, wwait, conns, crashed, leaked>> /\ UnchangedList
+  /\ Goto(g, "addh")
+  /\ UNCHANGED <<svc, mine, cad, ret, res, reqs, readers, wwait, conns, cpend>> /\ UnchangedFate /\ UnchangedList
+
+\* endpoint.AddHandler(filter, consumer, closer); return c
+AddHandler(g) ==
+  /\ Alive /\ pc[g] = "addh"
+  /\ LET c == mine[g]
+     IN IF conns[c].h                                \* Dev_CloserBeforeInsert: registered already
+          THEN UNCHANGED <<conns, cpend>>
+          ELSE /\ conns' = [conns EXCEPT ![c].h = TRUE]
+               /\ cpend' = IF conns[c].st = "lost" /\ ~Dev_DeadClientStaysInPool THEN cpend \cup {c} ELSE cpend
+  /\ Done(g, "ok", mine[g])
+  /\ UNCHANGED <<svc, mine, cad, reqs, poll>> /\ UnchangedMutex /\ UnchangedFate /\ UnchangedList
+
+\* endpoint.Close() of connection c by the session: the handlers' closers are started
+SessionCloses(c) ==
+  /\ conns' = [conns EXCEPT ![c].st = IF @ = "open" THEN "closed" ELSE @]
+  /\ cpend' = IF conns[c].h /\ conns[c].st = "open" THEN cpend \cup {c} ELSE cpend
 
 Dup(g) ==
-  /\ Alive /\ pc[g] = "locked_w" /\ writer = g /\ poll[tgt[g]] # NULL
+  /\ Alive /\ pc[g] = "locked_w" /\ writer = g /\ poll[MyKey(g)] # NULL
   /\ IF Dev_RUnlockUnderWriteLock
        THEN \* s.pollMutex.RUnlock() with the write lock held
             IF QueuedReaders = {}
               THEN /\ crashed' = TRUE /\ Goto(g, "stuck")
-                   /\ UNCHANGED <<ret, writer, conns, leaked>>
+                   /\ UNCHANGED <<ret, res, writer, conns, cpend, leaked>>
               ELSE \* reader count corrupted; the write lock is never released
                    /\ leaked' = TRUE
-                   /\ conns' = [conns EXCEPT ![mine[g]].open = FALSE]
-                   /\ ret' = [ret EXCEPT ![g] = poll[tgt[g]]]
-                   /\ Goto(g, "idle")
+                   /\ SessionCloses(mine[g])
+                   /\ Done(g, "ok", poll[MyKey(g)])
                    /\ UNCHANGED <<writer, crashed>>
        ELSE /\ writer' = NoG
-            /\ conns' = [conns EXCEPT ![mine[g]].open = FALSE]     \* endpoint.Close() of the duplicate
-            /\ ret' = [ret EXCEPT ![g] = poll[tgt[g]]]
-            /\ Goto(g, "idle")
+            /\ SessionCloses(mine[g])                       \* endpoint.Close() of the duplicate
+            /\ Done(g, "ok", poll[MyKey(g)])
             /\ UNCHANGED <<crashed, leaked>>
-  /\ UNCHANGED <<tgt, mine, reqs, poll, readers, wwait>> /\ UnchangedList
+  /\ UNCHANGED <<svc, mine, cad, reqs, poll, readers, wwait, losses>> /\ UnchangedList
 
-(* the pooled connection to a is lost: the closer deletes the entry under the write lock *)
-Closer(a) ==
-  /\ Alive /\ ConnLoss /\ poll[a] # NULL
+(* connection c is lost (peer or network); the closers registered on its end point are started *)
+Lose(c) ==
+  /\ Alive /\ losses < MaxLoss /\ c \in DOMAIN conns /\ conns[c].st = "open"
+  /\ conns' = [conns EXCEPT ![c].st = "lost"]
+  /\ cpend' = IF conns[c].h THEN cpend \cup {c} ELSE cpend
+  /\ losses' = losses + 1
+  /\ UNCHANGED <<pc, svc, mine, cad, ret, res, reqs, poll, crashed, leaked>> /\ UnchangedMutex /\ UnchangedList
+
+(* the closer of c: Lock; delete(poll, key); Unlock - keyed by address, whoever owns the entry now *)
+Closer(c) ==
+  /\ Alive /\ c \in cpend
   /\ writer = NoG /\ readers = {} /\ ~leaked
-  /\ conns' = [conns EXCEPT ![poll[a]].open = FALSE]
-  /\ poll' = [poll EXCEPT ![a] = NULL]
-  /\ UNCHANGED <<pc, tgt, mine, ret, reqs, readers, writer, wwait, crashed, leaked>> /\ UnchangedList
+  /\ poll' = [poll EXCEPT ![conns[c].key] = NULL]
+  /\ cpend' = cpend \ {c}
+  /\ UNCHANGED <<pc, svc, mine, cad, ret, res, reqs, conns>> /\ UnchangedMutex /\ UnchangedFate /\ UnchangedList
 
 (* update loop: a directory signal arrives; Services() is fetched WITHOUT the mutex, then stored under it *)
 Signal == /\ Alive /\ ~dirty /\ dirty' = TRUE
-          /\ UNCHANGED <<pc, tgt, mine, ret, reqs, poll, readers, writer, wwait, conns, crashed, leaked, svcList, svcMu>>
+          /\ UNCHANGED <<pc, svc, mine, cad, ret, res, reqs, poll, conns, cpend, svcList, svcMu>> /\ UnchangedMutex /\ UnchangedFate
 Refresh == /\ Alive /\ dirty /\ svcMu = NoG
-           /\ svcList' = Addrs /\ dirty' = FALSE
-           /\ UNCHANGED <<pc, tgt, mine, ret, reqs, poll, readers, writer, wwait, conns, crashed, leaked, svcMu>>
+           /\ svcList' = Svcs /\ dirty' = FALSE
+           /\ UNCHANGED <<pc, svc, mine, cad, ret, res, reqs, poll, conns, cpend, svcMu>> /\ UnchangedMutex /\ UnchangedFate
 
-Run(g) == \/ RLockEnter(g) \/ RLockGranted(g) \/ LookupHit(g) \/ LookupMiss(g) \/ Dial(g)
-          \/ LockWait(g) \/ Lock(g) \/ Insert(g) \/ Dup(g)
-Next == \/ \E g \in Gor : (\E a \in Addrs : Start(g, a)) \/ Run(g)
-        \/ \E a \in Addrs : Closer(a)
+Run(g) == \/ RLockEnter(g) \/ RLockGranted(g) \/ LookupHit(g) \/ LookupMiss(g)
+          \/ SelectDial(g) \/ SelectFail(g) \/ AuthOK(g) \/ AuthRefused(g) \/ AuthLost(g)
+          \/ LockWait(g) \/ Lock(g) \/ Insert(g) \/ AddHandler(g) \/ Dup(g)
+Closers == \E c \in cpend : Closer(c)
+Next == \/ \E g \in Gor : (\E s \in Svcs : Start(g, s)) \/ Run(g)
+        \/ \E c \in DOMAIN conns : Lose(c)
+        \/ Closers
         \/ Signal \/ Refresh
 
 Fairness == /\ \A g \in Gor : SF_vars(Run(g))
+            /\ SF_vars(Closers)
             /\ WF_vars(Refresh)
 Spec == Init /\ [][Next]_vars
 FairSpec == Spec /\ Fairness
 
 -----------------------------------------------------------------------------
-TypeOK == /\ \A g \in Gor : pc[g] \in {"idle", "rlock", "rlock_q", "locked_r", "dial", "lock", "locked_w", "stuck"}
+TypeOK == /\ \A g \in Gor : pc[g] \in {"idle", "rlock", "rlock_q", "locked_r", "select", "auth", "lock", "locked_w", "addh", "stuck"}
           /\ readers \subseteq Gor /\ writer \in Gor \cup {NoG}
+          /\ \A g \in Gor : res[g] \in {"none", "ok", "unreachable", "refused", "lost"}
+          /\ cpend \subseteq DOMAIN conns
 
+\* the process does not crash
+ProcessAlive == ~crashed
 \* a mutex is only released by who holds it, in the mode it is held: Go aborts the process otherwise
 NoBadUnlock == ~crashed /\ ~leaked
 
@@ -197,22 +326,44 @@ NoBadUnlock == ~crashed /\ ~leaked
 MutexOK == /\ (writer # NoG => readers = {})
            /\ \A g \in Gor : (pc[g] = "locked_r" <=> g \in readers) /\ (pc[g] = "locked_w" <=> writer = g)
 
-Quiescent == \A g \in Gor : pc[g] = "idle"
+Quiescent == (\A g \in Gor : pc[g] = "idle") /\ cpend = {}
+Finished(g) == pc[g] = "idle" /\ reqs[g] > 0
 
-\* at quiescence at most one open connection per endpoint, and it is the pooled one
+\* every request for a service with a reachable address succeeds (unless its authentication is refused
+\* or its connection lost under way); a request for a service without one returns an error
+RequestOutcome ==
+  \A g \in Gor : Finished(g) =>
+    /\ res[g] # "none"
+    /\ (res[g] = "unreachable") <=> ~Reachable(svc[g])
+    /\ res[g] = "refused" => AuthMayRefuse
+    /\ res[g] = "lost" => MaxLoss > 0
+    /\ res[g] = "ok" <=> ret[g] # NULL
+
+\* ... with a working client: never one the session has closed itself, and one that leads to an
+\* address the service advertises
+ReturnedIsOpen ==
+  \A g \in Gor : ret[g] # NULL => /\ conns[ret[g]].st # "closed"
+                                  /\ conns[ret[g]].ep \in Range(Adv[svc[g]])
+                                  /\ (MaxLoss = 0 => conns[ret[g]].st = "open")
+
+\* at quiescence at most one live connection per remote endpoint ...
 AtMostOneConnPerEndpoint ==
-  Quiescent => \A a \in Addrs : /\ Cardinality(OpenTo(a)) <= 1
-                                /\ OpenTo(a) = IF poll[a] = NULL THEN {} ELSE {poll[a]}
-
-\* every finished request returned the client everybody shares (while no connection is lost)
+  Quiescent => \A a \in Eps : Cardinality(OpenTo(a)) <= 1
+\* ... every other connection that was dialed has been closed (duplicates, refused authentications) ...
+ExtraConnectionsClosed ==
+  Quiescent => \A c \in DOMAIN conns : conns[c].st = "open" => \E a \in AllAddrs : poll[a] = c
+\* ... the pool holds no client whose connection is gone ...
+PoolHoldsLiveClients ==
+  Quiescent => \A a \in AllAddrs : poll[a] # NULL => conns[poll[a]].st = "open"
+\* ... and every finished request holds the client everybody shares
 AllGetTheSharedClient ==
-  ~ConnLoss => \A g \in Gor : (pc[g] = "idle" /\ reqs[g] > 0) => (ret[g] # NULL /\ ret[g] = poll[tgt[g]])
-
-\* a returned client is never a closed connection (the duplicate is closed, not the shared one)
-ReturnedIsOpen == ~ConnLoss => \A g \in Gor : ret[g] # NULL => conns[ret[g]].open
+  MaxLoss = 0 => \A g \in Gor : (Finished(g) /\ res[g] = "ok") => \E a \in AllAddrs : poll[a] = ret[g]
 
 \* every request terminates (FairSpec)
 Terminates == \A g \in Gor : [](pc[g] # "idle" => <>(pc[g] = "idle"))
+\* a lost pooled connection is eventually forgotten (FairSpec)
+LostIsForgotten == \A a \in Eps : []((poll[a] # NULL /\ conns[poll[a]].st = "lost" /\ conns[poll[a]].h) => <>(poll[a] = NULL \/ conns[poll[a]].st = "open"))
 \* no state in which some goroutine is blocked for ever while nobody can move
-NoDeadlock == (~crashed /\ \E g \in Gor : pc[g] # "idle") => \E g \in Gor : ENABLED Run(g)
+NoDeadlock == (~crashed /\ \E g \in Gor : pc[g] # "idle") => \/ \E g \in Gor : ENABLED Run(g)
+                                                             \/ ENABLED Closers
 =============================================================================
